@@ -2,6 +2,7 @@
 Driver side of engine `writer` (C11, C14 writer part).
 -/
 import Flussab.Model.Writer
+import Flussab.Model.WriterGenRun
 import Driver.Util
 
 namespace Driver
@@ -82,6 +83,16 @@ def parseRepeat (t : String) : Option (Nat × String) :=
     | _ => none
   | _ => none
 
+/-- Everything of a writer state an operation can change, as text. -/
+def wSig (w : Writer) : String :=
+  s!"{w.buf.length}/{fnv w.buf}/{w.cap}/{b2s w.ioError}{b2s w.panicked}/{w.sink.sched.length}/{w.sink.sunk.length}/{fnv w.sink.sunk}/{w.sink.log.length}"
+
+/-- One op on the hand-written model and, next to it, on the model *generated from the Rust source*
+(`TieWriter.genRun`, theorem `TieWriter.op_tied`): `false` = they differ in result or state. -/
+def genAgrees (w : Writer) (op : Writer.Op) (res : Option Bool) (w' : Writer) : Bool :=
+  let (gres, gw') := TieWriter.genRun w op
+  gres == res && wSig gw' == wSig w'
+
 def showWRes (op : Writer.Op) : Option Bool → String
   | none => "panic"
   | some b => match op with
@@ -99,7 +110,7 @@ def runRepeat (inner : String) : Nat → Nat → Writer → List (String × Nat)
     | none => (w, runs, cold, maxbuf)
     | some op =>
       let (res, w') := op.run w
-      let r := showWRes op res
+      let r := showWRes op res ++ (if genAgrees w op res w' then "" else "!GENERATED-MODEL-DIFFERS")
       let runs := match runs with
         | (last, c) :: rest => if last == r then (last, c + 1) :: rest else (r, 1) :: runs
         | [] => [(r, 1)]
@@ -125,7 +136,8 @@ def runWriterCase (line : String) : String × String :=
         let (res, w') := op.run w
         let isDrop := match op with | .drop => true | _ => false
         let wentCold := w'.sink.log.length != w.sink.log.length
-        (outs ++ [showWRes op res], w', isDrop, if wentCold then cold + 1 else cold, max maxbuf w'.buf.length))
+        let mark := if genAgrees w op res w' then "" else "!GENERATED-MODEL-DIFFERS"
+        (outs ++ [showWRes op res ++ mark], w', isDrop, if wentCold then cold + 1 else cold, max maxbuf w'.buf.length))
     ([], w0, false, 0, 0)
   let log := ",".intercalate (w.sink.log.map fun (a, b) => s!"{a}>{b}")
   (s!"{",".intercalate outs}|{log}|{w.sink.sunk.length}:{hex16 (fnv w.sink.sunk)}",
